@@ -27,36 +27,53 @@ inductive Syn where
   | ue (name : String)
   | se (name : String)
   | cond (p : Trace → Bool) (body : List Syn)
-  | rep (n : Trace → Nat) (body : List Syn)
+  | rep (cap : Nat) (n : Trace → Nat) (body : List Syn)     -- min (n acc) cap iterations
+  | seterr (p : Trace → Bool)                                -- the parser records an error and goes on (reads return 0)
+  | abort (p : Trace → Bool)                                 -- the parser returns an error at once
+
+/-- the parser has returned early (an `abort` fired) -/
+def stopped (t : Trace) : Bool := t.any (·.1 == "__stop")
 
 /-- read a syntax; `none` only when the fuel runs out (the reader itself never fails: it accumulates an error) -/
 def parse : Nat → List Syn → Trace → ER → Option (Trace × ER)
   | 0, _, _, _ => none
   | _ + 1, [], acc, e => some (acc, e)
+  | f + 1, .seterr p :: rest, acc, e =>
+    if stopped acc then some (acc, e) else
+    parse f rest acc (if p acc then { e with err := true } else e)
+  | f + 1, .abort p :: rest, acc, e =>
+    if stopped acc then some (acc, e) else
+    if p acc then some (acc ++ [("__stop", 1)], { e with err := true }) else parse f rest acc e
   | f + 1, .fld nm k :: rest, acc, e =>
+    if stopped acc then some (acc, e) else
     let (e', v) := e.read k
     parse f rest (acc ++ [(nm, (v : Int))]) e'
   | f + 1, .flag nm :: rest, acc, e =>
+    if stopped acc then some (acc, e) else
     let (e', b) := e.readFlag
     parse f rest (acc ++ [(nm, if b then 1 else 0)]) e'
   | f + 1, .ue nm :: rest, acc, e =>
+    if stopped acc then some (acc, e) else
     let (e', v) := e.readExpGolomb
     parse f rest (acc ++ [(nm, (v : Int))]) e'
   | f + 1, .se nm :: rest, acc, e =>
+    if stopped acc then some (acc, e) else
     let (e', v) := e.readSignedGolomb
     parse f rest (acc ++ [(nm, v)]) e'
   | f + 1, .cond p body :: rest, acc, e =>
+    if stopped acc then some (acc, e) else
     if p acc then
       match parse f body acc e with
       | some (a1, e1) => parse f rest a1 e1
       | none => none
     else parse f rest acc e
-  | f + 1, .rep n body :: rest, acc, e =>
-    match n acc with
+  | f + 1, .rep cap n body :: rest, acc, e =>
+    if stopped acc then some (acc, e) else
+    match min (n acc) cap with
     | 0 => parse f rest acc e
     | k + 1 =>
       match parse f body acc e with
-      | some (a1, e1) => parse f (.rep (fun _ => k) body :: rest) a1 e1
+      | some (a1, e1) => parse f (.rep k (fun _ => k) body :: rest) a1 e1
       | none => none
 
 /-- serialise: consume the values of `src` in order, produce the primitive operations -/
@@ -89,13 +106,15 @@ def ops : Nat → List Syn → Trace → Trace → Option (List Op × Trace × T
       | some (o1, a1, s1) => (ops f rest a1 s1).map fun (o2, a2, s2) => (o1 ++ o2, a2, s2)
       | none => none
     else ops f rest acc src
-  | f + 1, .rep n body :: rest, acc, src =>
-    match n acc with
+  | f + 1, .rep cap n body :: rest, acc, src =>
+    match min (n acc) cap with
     | 0 => ops f rest acc src
     | k + 1 =>
       match ops f body acc src with
-      | some (o1, a1, s1) => (ops f (.rep (fun _ => k) body :: rest) a1 s1).map fun (o2, a2, s2) => (o1 ++ o2, a2, s2)
+      | some (o1, a1, s1) => (ops f (.rep k (fun _ => k) body :: rest) a1 s1).map fun (o2, a2, s2) => (o1 ++ o2, a2, s2)
       | none => none
+  | f + 1, .seterr p :: rest, acc, src => if p acc then none else ops f rest acc src
+  | f + 1, .abort p :: rest, acc, src => if p acc then none else ops f rest acc src
 
 /-- the NAL unit an independent serialiser produces from a trace: operations written with the emulation-preventing
     writer, closed with rbsp trailing bits -/
